@@ -539,7 +539,7 @@ def cases(ctx):
             for _ in range(3):
                 infos.append(("rlatexrow", dict(base, row=rng.randint(0, 40), compact=rng.random() < .5)))
     # ---- random
-    reps = 120 if tier == "quick" else 1500
+    reps = 120 if tier == "quick" else 6000
     for _ in range(reps):
         f = rand_opb_info(rng) if rng.random() < .55 else rand_cnf_info(rng)
         k = rng.randint(0, min(f["n"], 3))
